@@ -138,6 +138,9 @@ def _gen_text(eng, a, b, c, d, g):
         f"u1 = b1 ** {eng.lit(a)} * b2 ** {eng.lit(b)} = U1",
         f"u2 = u1 ** {eng.lit(c)} * b1 = U2",
         f"u3 = b2 ** {eng.lit(d)} * b0 = U3",
+        # a root unit declared directly on the derived dimension, and units built from it
+        "u4 = [dd] = U4",
+        "u5 = 3 * u4 / b1",
     ]
 
 
@@ -149,11 +152,11 @@ def h_generated(eng, bound, fixed=None):
         eng.assume(Not(Eq(v, 0)))
     ureg = regs.build(eng, _gen_text(eng, a, b, c, d, g))
     # model: vectors over (d1, d2)
-    D = {"b1": (1, 0), "b2": (0, 1), "b0": (0, 0), "u1": (a, b), "u2": (a * c + 1, b * c), "u3": (0, d)}
+    D = {"b1": (1, 0), "b2": (0, 1), "b0": (0, 0), "u1": (a, b), "u2": (a * c + 1, b * c), "u3": (0, d), "u4": (g, -1), "u5": (g - 1, -1)}
     e1, e2, f1, f2 = (eng.integer(n, -bound, bound) for n in ("e1", "e2", "f1", "f2"))
     for v in (e1, e2, f1, f2):
         eng.assume(Not(Eq(v, 0)))
-    pu, pv, pw, pz = eng.choice("units", [("u1", "u3", "u2", "b2"), ("u2", "b1", "u1", "u3"), ("u1", "b0", "b1", "b2")])
+    pu, pv, pw, pz = eng.choice("units", [("u1", "u3", "u2", "b2"), ("u2", "b1", "u1", "u3"), ("u1", "b0", "b1", "b2"), ("u4", "b2", "b1", "u5"), ("u5", "u1", "u4", "b1")])
     src = ureg.UnitsContainer({pu: e1, pv: e2})
     dst = ureg.UnitsContainer({pw: f1, pz: f2})
     sv = [e1 * D[pu][i] + e2 * D[pv][i] for i in (0, 1)]
@@ -191,6 +194,10 @@ def h_generated(eng, bound, fixed=None):
         eng.prove(Eq(quot[dim] if dim in quot else 0, sv[i] - dv[i]), f"gen-quotient-{dim}")
     sq = (us**2).dimensionality
     eng.prove(Eq(sq["[d1]"] if "[d1]" in sq else 0, 2 * sv[0]), "gen-power")
+    # the root unit on the derived dimension has that dimension's base exponents
+    d4 = ureg.get_dimensionality("u4")
+    eng.prove(And(Eq(d4["[d1]"] if "[d1]" in d4 else 0, g), Eq(d4["[d2]"] if "[d2]" in d4 else 0, -1), set(d4) <= {"[d1]", "[d2]"}), "gen-root-unit-on-derived-dimension")
+    eng.prove(ureg.Quantity(x, "u4").check("[dd]") and ureg.Quantity(x, "U4").is_compatible_with(ureg.Unit(ureg.UnitsContainer({"b1": g, "b2": -1}))), "gen-root-unit-on-derived-dimension-compatible")
 
 
 def h_pairs(eng, pairs):
@@ -273,6 +280,43 @@ def h_config(eng, option, u, v, e, f):
     except DimensionalityError:
         ok = False
     eng.prove(ok == same, f"{option}:convert-iff-same-dimension")
+
+
+def h_inplace_predicates(eng, u, v, e, op):
+    """the predicates of an array quantity answer for its current units after in-place operations
+    (whatever was memoised before), including the step from exponent -1 to -2 and back"""
+    import numpy as np
+
+    ureg = regs.default(eng)
+    inf = covers.infos()
+    x, x2, y = eng.real("x"), eng.real("x2"), eng.real("y")
+    eng.assume(Not(Eq(y, 0)))
+    q = ureg.Quantity(np.array([x, x2], dtype=object), ureg.UnitsContainer({u: 1, v: e}))
+    old_units = ureg.Unit(q._units)
+    # memoise everything that can be memoised
+    q.dimensionality, q.check(old_units), q.is_compatible_with(old_units), ureg.is_compatible_with(q, old_units)
+    if op == "mul":
+        q *= ureg.Quantity(y, v)
+        e2, k = e + 1, 1
+    elif op == "div":
+        q /= ureg.Quantity(y, v)
+        e2, k = e - 1, 1
+    else:
+        q **= 2
+        e2, k = 2 * e, 2
+    want = _dimvec([inf[u], inf[v]], [k, e2])
+    got = {kk: (vv.c if hasattr(vv, "c") else Fraction(vv)) for kk, vv in q.dimensionality.items()}
+    eng.prove(got == {kk: Fraction(vv) for kk, vv in want.items() if vv != 0}, f"inplace-{op}:dimensionality")
+    new_units = ureg.Unit(ureg.UnitsContainer({kk: vv for kk, vv in ((u, k), (v, e2)) if vv != 0}))
+    eng.prove(q.check(new_units) and q.is_compatible_with(new_units) and ureg.is_compatible_with(q, new_units), f"inplace-{op}:compatible-with-the-new-units")
+    same_as_old = _vec_equal(want, _dimvec([inf[u], inf[v]], [1, e]))
+    eng.prove(q.check(old_units) == same_as_old and q.is_compatible_with(old_units) == same_as_old, f"inplace-{op}:old-units-only-if-same-dimension")
+    try:
+        q.to(new_units)
+        ok = True
+    except DimensionalityError:
+        ok = False
+    eng.prove(ok, f"inplace-{op}:converts-to-the-new-units")
 
 
 def h_compatible_listing(eng, names):
@@ -381,6 +425,10 @@ def cases(tier, seed):
     for i in range(0, len(pairs), 250 if big else 50):
         chunk = pairs[i : i + (250 if big else 50)]
         out.append(Case("H01.c", f"{i:06d}", M, "h_pairs", {"pairs": chunk}, validate=0, weight=3.0))
+    for u, v in (("meter", "second"), ("newton", "hour")) + ((("joule", "inch"), ("gram", "minute")) if big else ()):
+        for e in (-2, -1, 1, 2):
+            for op in ("mul", "div", "pow"):
+                out.append(Case("H01.d", f"inplace-predicates:{u}*{v}^{e}:{op}", M, "h_inplace_predicates", {"u": u, "v": v, "e": e, "op": op}, validate=1))
     # registry configurations
     fam = [("meter", "liter"), ("hectare", "inch"), ("second", "hertz"), ("joule", "newton"), ("gallon", "foot"), ("barn", "meter"), ("watt", "volt"), ("mile", "hour"), ("gram", "pound"), ("liter", "liter")]
     fam += [tuple(rnd.sample(cov, 2)) for _ in range(20 if big else 4)]
